@@ -515,7 +515,75 @@ class UnGuard(_Blocks):
         return body
 
 
-KINDS = {"mergeif": MergeIf, "splitif": SplitIf, "elsewrap": ElseWrap, "unelse": UnElse, "ternary2if": Ternary2If, "demorgan": DeMorgan, "unguard": UnGuard, "imports": ImportStyle, "comp2loop": Comp2Loop, "swapindep": SwapIndependent, "splitunpack": SplitUnpack, "flip": Flip, "invert": Invert, "kwargs": Kwargs, "aug": Aug, "noise": Noise, "annot": Annot, "inlinetemp": InlineTemp, "extracttemp": ExtractTemp}
+def _module_callables(mod):
+    """{name: (params, has_star)} for module-level functions and {cls: {meth: (params, is_static)}} for classes of one module"""
+    funcs, classes = {}, {}
+    for st in mod.body:
+        if isinstance(st, (ast.FunctionDef, ast.AsyncFunctionDef)):
+            a = st.args
+            if not st.decorator_list:
+                funcs[st.name] = ([x.arg for x in a.posonlyargs + a.args], bool(a.vararg or a.kwarg or a.posonlyargs))
+        elif isinstance(st, ast.ClassDef):
+            ms = {}
+            for m in st.body:
+                if isinstance(m, (ast.FunctionDef, ast.AsyncFunctionDef)):
+                    a = m.args
+                    deco = [ast.unparse(d) for d in m.decorator_list]
+                    if any(d not in ("staticmethod", "classmethod") for d in deco):
+                        continue
+                    params = [x.arg for x in a.posonlyargs + a.args]
+                    if "staticmethod" not in deco:
+                        params = params[1:]
+                    ms[m.name] = (params, bool(a.vararg or a.kwarg or a.posonlyargs))
+            classes[st.name] = ms
+    return funcs, classes
+
+
+class Pos2Kw(ast.NodeTransformer):
+    """f(a, b, c) -> f(a, b=b_, c=c_): positional arguments after the first are passed by keyword, for callees defined in the same module
+    (module functions by name; methods through self. / cls. / ClassName.) whose signature has no *args / **kwargs / positional-only part"""
+
+    def visit_Module(self, mod):
+        self.funcs, self.classes = _module_callables(mod)
+        self.cls = None
+        self.generic_visit(mod)
+        return mod
+
+    def visit_ClassDef(self, n):
+        prev, self.cls = self.cls, n.name
+        self.generic_visit(n)
+        self.cls = prev
+        return n
+
+    def visit_Call(self, c):
+        self.generic_visit(c)
+        if any(isinstance(a, ast.Starred) for a in c.args) or any(k.arg is None for k in c.keywords) or len(c.args) < 2:
+            return c
+        sig = None
+        f = c.func
+        if isinstance(f, ast.Name) and f.id in self.funcs:
+            sig = self.funcs[f.id]
+        elif isinstance(f, ast.Attribute) and isinstance(f.value, ast.Name):
+            if f.value.id in ("self", "cls") and self.cls and f.attr in self.classes.get(self.cls, {}):
+                sig = self.classes[self.cls][f.attr]
+            elif f.value.id in self.classes and f.attr in self.classes[f.value.id]:
+                sig = self.classes[f.value.id][f.attr]
+                # Class.method(obj, ...) on an instance method passes self explicitly: leave it
+                if sig is not None and len(c.args) > len(sig[0]):
+                    sig = None
+        if sig is None or sig[1] or len(c.args) > len(sig[0]):
+            return c
+        params = sig[0]
+        have = {k.arg for k in c.keywords}
+        if any(params[i] in have for i in range(len(c.args))):
+            return c
+        new_kw = [ast.keyword(arg=params[i], value=c.args[i]) for i in range(1, len(c.args))]
+        c.args = c.args[:1]
+        c.keywords = new_kw + c.keywords
+        return c
+
+
+KINDS = {"pos2kw": Pos2Kw, "mergeif": MergeIf, "splitif": SplitIf, "elsewrap": ElseWrap, "unelse": UnElse, "ternary2if": Ternary2If, "demorgan": DeMorgan, "unguard": UnGuard, "imports": ImportStyle, "comp2loop": Comp2Loop, "swapindep": SwapIndependent, "splitunpack": SplitUnpack, "flip": Flip, "invert": Invert, "kwargs": Kwargs, "aug": Aug, "noise": Noise, "annot": Annot, "inlinetemp": InlineTemp, "extracttemp": ExtractTemp}
 
 
 def reshaped(src: str, kind: str) -> str:
